@@ -97,7 +97,8 @@ CLAIMED = {
              "depth limit no error is raised and every scalar of every document is exposed under json.<path> with its text "
              "(C03_json_every_scalar_exposed, by induction over the document); XML bodies: every attribute value and every non-blank "
              "piece of character data / CDATA of every element at any depth is exposed in XML://@* and XML:/*, one value per attribute, "
-             "none invented (C03_xml_*, Properties/C03b.lean). Tied to /repo by `decode` through ProcessURI, the urlencoded, "
+             "none invented (C03_xml_*, Properties/C03b.lean); the request line: REQUEST_URI_RAW is the URI handed in and REQUEST_URI, "
+             "REQUEST_FILENAME, QUERY_STRING are its cuts at the first `#` and `?`, which put together give it back (C03_uri_decomposition). Tied to /repo by `decode` through ProcessURI, the urlencoded, "
              "multipart, JSON and XML body processors, the Cookie header and AddRequestHeader.",
         note=_TB + "Partial: the tokenisers themselves (mime/multipart, encoding/xml, gjson) are the assumed contract on well-formed input: the "
              "models read the document tree, the harness's independent encoder writes the text; malformed multipart/XML is judged by the monitor only; "
